@@ -738,9 +738,13 @@ def check(ck):
     rl = FA(ck, "runner_local.memento_run_local")
     body = rl.one(rl.calls("_filter_call"), "_filter_call (function body) call")
     p_ref = "fn_reference_with_args" if "fn_reference_with_args" in rl.fi.params else (rl.fi.params[1] if len(rl.fi.params) > 1 else "")
-    okb = not body.args and len(body.keywords) == 1 and body.keywords[0].arg is None and \
-        rl.xnorm(body.keywords[0].value, rl.nodes(body)[0]) == p_ref + ".effective_kwargs" and \
-        all(d.kind == "param" for d in rl.df.reaching(rl.nodes(body)[0], p_ref))
+    okb = not body.args and len(body.keywords) == 1 and body.keywords[0].arg is None
+    if okb:
+        # what is spread into the call: the effective kwargs themselves or a plain copy of them
+        e_ = strip_cast(rl.expand(body.keywords[0].value, rl.nodes(body)[0]))
+        while is_copy_of(e_) is not None:
+            e_ = strip_cast(is_copy_of(e_))
+        okb = A.norm(e_) == p_ref + ".effective_kwargs" and all(d.kind == "param" for d in rl.df.reaching(rl.nodes(body)[0], p_ref))
     ck.ob(R1, rl.key(body, "body-args"), okb, "the body receives exactly the effective kwargs (no context args)" if okb else
           "the body is not called with **fn_reference_with_args.effective_kwargs", rl.where(body))
 
@@ -880,18 +884,41 @@ def check(ck):
     ru = FA(ck, "context.RecursiveContext.update")
     rp = ru.fi.params
     oku = False
-    st = [s for s in ru.stmts(ast.Assign) if any(isinstance(t, ast.Subscript) and isinstance(t.value, ast.Attribute) and t.value.attr == "__dict__" for t in s.targets)]
-    if len(st) == 1 and len(st[0].targets) == 1 and len(rp) >= 3 and ru.nodes(st[0]):
-        t = st[0].targets[0]
-        at = ru.nodes(st[0])[0]
-        obj = origin(ru, t.value.value, at)
-        oku = ru.xnorm(t.slice, at) == rp[1] and ru.xnorm(st[0].value, at) == rp[2] and obj is not None and isinstance(strip_cast(obj.value), ast.Call) \
-            and A.root_name(t.value.value) != "self"
+    # where one entry of an object's __dict__ is set: (statement, object, key expr, value expr) —
+    # obj.__dict__[k] = v / obj.__dict__.update({k: v}) / obj.__dict__.__setitem__(k, v) / object.__setattr__(obj, k, v)
+    sets = []
+    for s in ru.stmts((ast.Assign, ast.Expr)):
+        if not ru.nodes(s):
+            continue
+        if isinstance(s, ast.Assign):
+            for t in s.targets:
+                if isinstance(t, ast.Subscript) and isinstance(t.value, ast.Attribute) and t.value.attr == "__dict__":
+                    sets.append((s, t.value.value, t.slice, s.value))
+            continue
+        c = s.value
+        if not isinstance(c, ast.Call):
+            continue
+        recv = A.call_recv(c)
+        on_dict = isinstance(recv, ast.Attribute) and recv.attr == "__dict__"
+        if on_dict and A.call_attr(c) == "update" and len(c.args) == 1 and not c.keywords and isinstance(c.args[0], ast.Dict) \
+                and len(c.args[0].keys) == 1 and c.args[0].keys[0] is not None and A.norm(recv.value) != "self":
+            sets.append((s, recv.value, c.args[0].keys[0], c.args[0].values[0]))
+        elif on_dict and A.call_attr(c) == "__setitem__" and len(c.args) == 2:
+            sets.append((s, recv.value, c.args[0], c.args[1]))
+        elif A.norm(c.func) == "object.__setattr__" and len(c.args) == 3:
+            sets.append((s, c.args[0], c.args[1], c.args[2]))
+    if len(sets) == 1 and len(rp) >= 3:
+        (s0, o_expr, k_expr, v_expr) = sets[0]
+        at = ru.nodes(s0)[0]
+        obj = origin(ru, o_expr, at)
+        oku = ru.xnorm(k_expr, at) == rp[1] and ru.xnorm(v_expr, at) == rp[2] and obj is not None and isinstance(strip_cast(obj.value), ast.Call) \
+            and A.root_name(o_expr) != "self"
         if oku:
             mk = strip_cast(obj.value)
             copied = (A.call_attr(mk) in ("copy", "deepcopy") and "self" in A.names_in(mk)) or \
                 any(A.call_attr(c_) == "update" and A.norm(c_.args[0] if c_.args else None) == "self.__dict__" and ru.nodes(c_)
                     and same_def(origin(ru, A.call_recv(c_).value, ru.nodes(c_)[0]) if isinstance(A.call_recv(c_), ast.Attribute) else None, obj)
+                    and at in ru.cfg.reach(ru.nodes(c_), include_start=False)
                     for c_ in ru.calls("update"))
             rets = ru.returns()
             oku = copied and bool(rets) and all(r.value is not None and same_def(origin(ru, r.value, ru.nodes(r)[0]), obj) for r in rets if ru.nodes(r))
